@@ -44,7 +44,7 @@ def r1_seed_loop(a, tier):
         floor=1,
     )
     fn = a.p.func(f'{ENGINE}.recursive_call')
-    init_vars = {n.targets[0].id for _f, n in a.extents.walk(fn) if isinstance(n, ast.Assign) and norm(n.value) == 'self.pos'
+    init_vars = {n.targets[0].id for _f, n in a.extents.walk(fn) if isinstance(n, ast.Assign) and norm(n.value) in ('self.pos', 'ctx.pos')
                  and isinstance(n.targets[0], ast.Name)}
 
     class Sem(Semantics):
